@@ -74,7 +74,7 @@ def sweep_shard(cells, b, p):
                 cpools.append([["f", 3, 2]])
             else:
                 cpools.append([-1, 0, 1, 2, 3, lim])
-        spools = [[0, 1] if ts[pos] == "B" else ipool for pos in sec_pos]
+        spools = [[0, 1, 2] if ts[pos] == "B" else ipool for pos in sec_pos]     # 2: declared boolean holding garbage
         for cvals in itertools.product(*cpools):
             runs = []
             for svals in itertools.product(*spools):
@@ -91,7 +91,7 @@ def sweep_shard(cells, b, p):
                     m = ir.run_program(prog)
                     ng = len(mode.split("guard")[1]) if "guard" in mode else 0
                     res[mode] = (prog, consistent(m) if (m.raised is None and mode in FALSE_MODES) else None,
-                                 outcome(m, len(args) + ng))
+                                 outcome(m, prog["first_result"]))
                 runs.append((vals, res))
             supported = any(r["normal"][2][0] == "ok" for _, r in runs)
             for vals, res in runs:
